@@ -4,10 +4,12 @@ package c08
 
 import (
 	"bytes"
+	"context"
 	"fmt"
 	"time"
 
 	"github.com/arloliu/go-secs/v2/hsms"
+	"github.com/arloliu/go-secs/v2/secs2"
 	"github.com/arloliu/go-secs/v2/verifsim/core"
 	"github.com/arloliu/go-secs/v2/verifsim/refhsms"
 	"github.com/arloliu/go-secs/v2/verifsim/rig"
@@ -41,6 +43,10 @@ type scenario struct {
 	Cap   int
 	Queue int
 	T6    time.Duration
+	// AppPrimary: (passive, leading Select.req) the application has a W-bit data primary outstanding
+	// while the rest of the sequence arrives, and half of the sequence's orphan control responses
+	// carry ITS system bytes: a control response never completes a data transaction — Reject reason 3
+	AppPrimary bool
 }
 
 type harness struct {
@@ -65,6 +71,9 @@ type harness struct {
 	expEnd   bool // the sequence makes the SUT close the connection
 	endAt    int
 	secondTried bool
+	staged, appSent, appDone, appNilNil, haveAppSys bool
+	appSys      uint32
+	appErr      error
 	secondAt time.Duration
 	sentAt   time.Duration
 }
@@ -181,6 +190,7 @@ func genScenario(t *core.Tape, faulty bool) scenario {
 			sc.T6 = []time.Duration{200 * time.Millisecond, 2 * time.Second}[t.Choose("scn", 2)]
 		}
 	}
+	sc.AppPrimary = !sc.Active && sc.PreSelect && t.Bias("scn", 1, 4)
 	nc := t.Choose("scn", 7)
 	for i := 0; i < nc; i++ {
 		sc.Cuts = append(sc.Cuts, t.Choose("scn", 1<<16))
@@ -362,10 +372,54 @@ func definedSType(s byte) bool {
 func (h *harness) transmit() {
 	h.sent = true
 	sc := h.sc
+	if sc.AppPrimary && !h.staged {
+		// stage 1: the leading Select.req alone; then the application's primary; then everything else
+		h.staged = true
+		w := h.w
+		h.c.SendFrame(refhsms.Header{Session: sc.Session, SType: refhsms.STSelectReq, Sys: 0x5E1EC7}, nil)
+		var wait func()
+		n := 0
+		wait = func() {
+			n++
+			if h.r.Selected() && !h.appSent {
+				h.appSent = true
+				w.Go("app-primary", func() {
+					rep, err := h.r.C.SendDataMessage(context.Background(), 1, 1, true, secs2.A("app-primary"))
+					h.appDone, h.appErr, h.appNilNil = true, err, rep == nil && err == nil
+				})
+			}
+			for _, f := range h.c.Rx {
+				if f.H.SType == refhsms.STData && f.H.PType == 0 && f.H.W() && f.H.Stream() == 1 && f.H.Function() == 1 {
+					h.appSys, h.haveAppSys = f.H.Sys, true
+				}
+			}
+			if h.haveAppSys || n > 400 {
+				if !h.haveAppSys {
+					w.Fail("HARNESS", "the application's primary never reached the peer")
+
+					return
+				}
+				for i := range h.sc.Seq {
+					if h.sc.Seq[i].Class == "orphan.rsp" && w.T.Choose("peer", 2) == 0 {
+						h.sc.Seq[i].H.Sys = h.appSys
+						w.Probe("control_response_with_system_bytes_of_open_data_transaction")
+					}
+				}
+				h.transmit()
+
+				return
+			}
+			w.After(time.Millisecond, "stage-wait", wait)
+		}
+		w.After(time.Millisecond, "stage-wait", wait)
+
+		return
+	}
 	var in []frame
 	if !sc.Active && sc.PreSelect {
 		in = append(in, frame{H: refhsms.Header{Session: sc.Session, SType: refhsms.STSelectReq, Sys: 0x5E1EC7}, Class: "select.req"})
 	}
+	skipFirst := sc.AppPrimary // (already on the wire: stage 1)
 	for i, f := range sc.Seq {
 		if sc.Active && sc.SelectAt == i {
 			in = append(in, frame{H: refhsms.Header{Session: sc.Session, B3: sc.SelStatus, SType: refhsms.STSelectRsp, Sys: h.sutSelSys}, Class: "select.rsp"})
@@ -385,6 +439,9 @@ func (h *harness) transmit() {
 	var stream []byte
 	secondOff := -1
 	for i, f := range in {
+		if skipFirst && i == 0 {
+			continue
+		}
 		if !sc.Active && sc.SecondAt >= 0 && secondOff < 0 && i >= sc.SecondAt+boolInt(sc.PreSelect) {
 			secondOff = len(stream)
 		}
@@ -459,6 +516,9 @@ func (h *harness) outFrames() []refhsms.RxFrame {
 		if h.sc.Active && f.H.SType == refhsms.STSelectReq && f.H.Sys == h.sutSelSys {
 			continue // the SUT's own Select.req
 		}
+		if h.haveAppSys && f.H.SType == refhsms.STData && f.H.PType == 0 && f.H.Sys == h.appSys && f.H.Stream() == 1 && f.H.Function() == 1 {
+			continue // the application's own primary
+		}
 		out = append(out, f)
 	}
 
@@ -493,6 +553,11 @@ func (h *harness) done() bool {
 
 func (h *harness) final(reason string) {
 	w := h.w
+	if h.appNilNil {
+		w.Fail("NIL_NIL", "the application's W-bit send returned neither a reply nor an error: a control response with its system bytes completed it")
+
+		return
+	}
 	if !h.sent {
 		w.Fail("HARNESS", "the peer never got to transmit (reason %s)", reason)
 
